@@ -7,6 +7,8 @@ FUNCTIONS = [
     "toasty.study.StudyTiling.__init__",
     "toasty.study.StudyTiling.count_populated_positions",
     "toasty.study.StudyTiling.generate_populated_positions",
+    "toasty.study.StudyTiling.compute_for_subimage",
+    "toasty.study.StudyTiling.image_to_tile",
 ]
 LEMMAS = []
 SLOW = ()
